@@ -472,6 +472,33 @@ impl Node {
         node_ids: &mut HashSet<NodeIdentifier>,
         conn: &Connection,
     ) -> Result<Vec<NodeToInsert>> {
+        //a node that has been deleted locally, at this version or at a more recent one, must not be requested again
+        //from a peer that has not yet received the deletion
+        {
+            let candidates: Vec<Uid> = node_ids.iter().map(|node| node.id).collect();
+            let in_clause = vec!["?"; candidates.len()].join(",");
+            let query = format!(
+                "SELECT id, max(mdate) FROM _node_deletion_log WHERE id in ({}) GROUP BY id",
+                in_clause
+            );
+            let mut stmt = conn.prepare(&query)?;
+            let mut rows = stmt.query(params_from_iter(candidates.iter()))?;
+            while let Some(row) = rows.next()? {
+                let deleted = NodeIdentifier {
+                    id: row.get(0)?,
+                    mdate: row.get(1)?,
+                    signature: Vec::new(),
+                };
+                let is_deleted = match node_ids.get(&deleted) {
+                    Some(new) => new.mdate <= deleted.mdate,
+                    None => false,
+                };
+                if is_deleted {
+                    node_ids.remove(&deleted);
+                }
+            }
+        }
+
         let it = &mut node_ids.iter().peekable();
         let mut q = String::new();
         let mut ids = Vec::new();
